@@ -42,7 +42,10 @@ var nonAsciiLabels = []string{"ä", "Ä", "日本語", "a≠b", "a≮b", "≯", 
 	"\u212a", "\u0130", "faß", "ﬁ", "é", "e\u0301", "\ufffd", "a\ufffdb", "☃", "\U0001F600", "١", "a\u0301", "\u0301a", "ｘｎ－－a", "a。b", "．", "ª", "²",
 	// the three characters the ASCII-or-misc fallback lets through, next to forbidden domain code points (the fallback must not
 	// bypass the forbidden-code-point scan) and next to ordinary text
-	"a≠<b", "x≯^y", "≮|", "a≠ b", "≠>", "a≠b<", "<≠", "a≠{b}", "a≠\"b", "≯`", "a≠\x7fb", "a≠b.c", "A≠B"}
+	"a≠<b", "x≯^y", "≮|", "a≠ b", "≠>", "a≠b<", "<≠", "a≠{b}", "a≠\"b", "≯`", "a≠\x7fb", "a≠b.c", "A≠B",
+	// the first and last code point of every UTF-8 length class (U+0080 is where "ASCII" ends: a `>` for a `>=` shows only there),
+	// alone, inside ordinary text and next to the let-through characters
+	"\u0080", "a\u0080b", "\u0081", "\u00ff", "\u0100", "\u07ff", "\u0800", "\ud7ff", "\ue000", "\uffff", "\U00010000", "\U0010ffff", "a≠\u0080", "\u0080≮", "A\u0080"}
 var weirdHosts = []string{"", ".", "..", "...", "a.", "a..", ".a", "a..b", "%41", "%2e", "%2E%2e", "ex%61mple", "a%00b", "a b", "a<b", "a>b", "a|b", "a^b", "a\\b",
 	"a%b", "a%2", "%zz", "a%25b", "a%2525b", "%C3%A4", "%c3%a4", "%E4", "%ff", "%80", "a%C3", "%EF%BF%BD", "a\x00b", "a\x7fb", "a\x1fb", "a%7fb", "a%20b", "a%23b",
 	"a%2Fb", "a%3Ab", "a%40b", "a%5Bb", "[", "]", "[]", "a[b]", "C:", "C|", "c:", "a:b", "a@b", "\xff", "a\xffb", "\xff\xfe", "a\xff\xfeb", "\xc3", "\xc3\n\xa4",
@@ -61,12 +64,13 @@ var portPool = []string{"", "80", "443", "21", "0", "00", "00080", "8080", "6553
 
 var segPool = []string{"a", "b", "c", "foo", "bar", ".", "..", "...", "%2e", "%2E", "%2e%2e", "%2E%2E", ".%2e", "%2e.", ".%2E", "%2E.", "%2e%2E", "%252e", "%252e%252e", "%25252e", "", "", "C:", "C|", "c|", "c:", "C|x", "CC|", "1|",
 	"a b", "a%20b", "%", "%1", "%zz", "%41", "%4", "a%", "%%", "%25", "%2525", "é", "\xff", "\ufffd", "a\\b", "\\", "a;b", "a=b", "a:b", "a@b", "a|b", "a^b", "a`b", "a{b}", "a\"b", "a<b>", "a'b", "~", "!", "$&'()*+,", "[x]",
-	"\x00", "\x1f", "\x7f", "\u00a0", "\u2028", "\ufdd0", "\ufffe", "\U0001fffe", "\U0010ffff", "a\tb", "a\nb", " ", "  "}
+	"\x00", "\x1f", "\x7f", "\u00a0", "\u2028", "\ufdd0", "\ufffe", "\U0001fffe", "\U0010ffff", "a\tb", "a\nb", " ", "  ",
+	"\u0080", "\u07ff", "\u0800", "\uffff", "\U00010000", "\x7e\x7f\u0080"}
 
 var queryPool = []string{"", "a", "a=b", "a=1&b=2", "a=1&a=2&b", "x=1&x=2&X=3", "&", "&&", "a&", "&a", "=", "=a", "a=", "a==b", "a=b=c", "+", "a+b=c+d", "%20", "%2B", "a=1%2B1", "%26", "a=%26b", "%3D", "a%3Db=c", "%", "%1", "%zz", "%41=%42",
-	"'", "a'b", "\"", "<>", "`", "{}", "|", "^", "#", "?", "??", "a?b", "é=ü", "%C3%A9", "%E9", "\xff", "\ufffd", "a b", " ", "b=2&a=1&c=3&a=0", "z&y&x", "a=2&a=1", "ab=&a=b", "a&a=", "%41=1&A=2", "a\tb", "\x00", "\x7f", "~!$()*,;:@/"}
+	"'", "a'b", "\"", "<>", "`", "{}", "|", "^", "#", "?", "??", "a?b", "é=ü", "%C3%A9", "%E9", "\xff", "\ufffd", "a b", " ", "b=2&a=1&c=3&a=0", "z&y&x", "a=2&a=1", "ab=&a=b", "a&a=", "%41=1&A=2", "a\tb", "\x00", "\x7f", "~!$()*,;:@/", "\u0080", "\u07ff\u0800", "\uffff\U00010000"}
 
-var fragPool = []string{"#x", "##x", "%23%23x", "#%23", "%2523%2523s", "#", "", "f", "frag", "a b", "a%20b", "%", "%1", "%zz", "%41", "é", "\xff", "\ufffd", "\"", "<", ">", "`", "'", "{}", "|", "^", "#", "##", "a#b", "?", "\x00", "\x1f", "\x7f", " ", "  ", "a\tb", "\u00a0", "~!$&()*+,;=:@/?"}
+var fragPool = []string{"#x", "##x", "%23%23x", "#%23", "%2523%2523s", "#", "", "f", "frag", "a b", "a%20b", "%", "%1", "%zz", "%41", "é", "\xff", "\ufffd", "\"", "<", ">", "`", "'", "{}", "|", "^", "#", "##", "a#b", "?", "\x00", "\x1f", "\x7f", " ", "  ", "a\tb", "\u00a0", "~!$&()*+,;=:@/?", "\u0080", "\u07ff\u0800", "\uffff\U00010000"}
 
 var userPool = []string{"", "u", "user", "User", "u%41", "u:", ":p", "u p", "u@", "@", "u/", "u?", "u#", "é", "\xff", "%", "%zz", "a:b:c", "u;v", "u=v", "u|v", "[u]", "u\\v", "u^v", "u'v", "u\"v", "u<v>", "\x00", "~!$&()*+,"}
 
